@@ -282,6 +282,10 @@ class SupvisorsInstanceStatus:
         self.logger.debug(f'SupvisorsInstanceStatus.update_tick: update Supvisors={self.usage_identifier}' 
                           f' with sequence_counter={remote_sequence_counter} remote_time={remote_time}'
                           f' remote_mtime={remote_mtime} local_sequence_counter={local_sequence_counter}')
+        if not self.has_active_state():
+            # the TICK counter of a Supvisors instance that is not active is expected to start again from scratch
+            # there is nothing to invalidate, so this must not be taken for a stealth restart
+            self.times.remote_sequence_counter = 0
         self.times.update(remote_sequence_counter, remote_mtime, remote_time, local_sequence_counter)
         # update all process times
         for process in self.processes.values():
